@@ -4,6 +4,11 @@ import OH.Spec.Rules
    then `.lake/build/bin/bfdated <shard> <nshards> <first day> <last day> <offsets…>` (e.g. 16 shards,
    days 736330 739982, offsets 0 1 -1 30 -30 300 -300 365 -365 366 -366 400 -400 770 -770 1500 -1500 3000 -3000
    100000 -100000: 44 100 ranges x 3652 days, 0 mismatch with the specification, 0 unsound hint).
+   Offsets beyond the calendar (since /repo 5cdd92e; env STRIDE=n evaluates the specification on every n-th day only —
+   it looks at every year of the calendar there, about 0.2 s per day): STRIDE=97, days 738900 739300, offsets 0 5
+   100000000 -100000000 -95700000 95700000 200000000 -200000000: 6400 ranges, 0 mismatch, 0 unsound hint, 0 error;
+   STRIDE=61, offsets 0 -95006399 -95006100 -95004000 96485129 96484800 96487000 (where d - offset crosses
+   NaiveDate::MAX / MIN): 4900 ranges, 0 / 0 / 0.
    For dated ranges with offsets of any size,
    (1) MonthdayRange.filter d = Spec.datedOk d on every day of a window,
    (2) HintOK: hint d > d and the filter is constant on [d, hint d). -/
@@ -43,7 +48,7 @@ def showOff (o : DateOffset) : String :=
   (match o.wday with | .none => "" | .prev t => s!" -wd{t}" | .next t => s!" +wd{t}") ++ (if o.days == 0 then "" else s!" {o.days}d")
 
 def runOne (name : String) (s : DateSpec) (so : DateOffset) (e : DateSpec) (eo : DateOffset) (lo hi : Int)
-    (checkSpec : Bool) : IO (Nat × Nat × Nat) := do
+    (checkSpec : Bool) (stride : Nat := 1) : IO (Nat × Nat × Nat) := do
   let r := MonthdayRange.date s so e eo
   let n := (hi - lo).toNat
   -- filter over [lo, hi + margin)
@@ -57,7 +62,7 @@ def runOne (name : String) (s : DateSpec) (so : DateOffset) (e : DateSpec) (eo :
     match r.filter d with
     | .ok b =>
       F := F.push b
-      if checkSpec && i < n then
+      if checkSpec && i < n && i % stride == 0 then
         if datedOk s so e eo d != b then
           specBad := specBad + 1
           if specBad ≤ 2 then IO.println s!"SPEC {name}{showOff so} /{showOff eo} d={d} impl={b}"
@@ -92,6 +97,7 @@ def main (args : List String) : IO Unit := do
     let sh := sh.toNat!; let nsh := nsh.toNat!
     let lo := lo.toInt!; let hi := hi.toInt!
     let offs := offs.map String.toInt!
+    let stride := ((← IO.getEnv "STRIDE").getD "1").toNat!
     let mut idx := 0
     let mut ranges := 0
     let mut tS := 0; let mut tH := 0; let mut tE := 0; let mut badRanges := 0
@@ -104,7 +110,7 @@ def main (args : List String) : IO Unit := do
               let so : DateOffset := ⟨wa, a⟩
               let eo : DateOffset := ⟨wb, b⟩
               -- the documented semantics give no meaning to yearless-start / year-end ranges
-              let (x, y, z) ← runOne name s so e eo lo hi (datedDefined s e)
+              let (x, y, z) ← runOne name s so e eo lo hi (datedDefined s e) stride
               ranges := ranges + 1
               tS := tS + x; tH := tH + y; tE := tE + z
               if x + y + z > 0 then badRanges := badRanges + 1
